@@ -177,4 +177,24 @@ def spanHistoryOK (perm : List Nat) (nShared : Nat) (h : List Ev) (snaps : List 
     (finalRec : Bool) (finalEnd finalChildren : Nat) : Bool :=
   (histCheck perm nShared h snaps finalRec finalEnd finalChildren).isEmpty
 
+/-! ### Known finding F36 (data race; an OBSERVATION of the race detector, no theorem speaks about it)
+
+Scenario `attrrace n dup conc`: a span with `n` attributes (`dup` of them set a second time, i.e. duplicate keys) is
+ended; one goroutine reads the exported snapshot's `Attributes()`; if `conc`, another one calls `Attributes()` on the
+ended span through the ReadWriteSpan it got in OnStart (otherwise it is a second reader of the snapshot: control).
+`recordingSpan.Attributes()` → `dedupeAttrsFromRecord` rebuilds `s.attributes` IN PLACE (`unique := s.attributes[:0]`,
+then `unique = append(unique, a)` / `unique[idx] = a` for every attribute) and the snapshot's slice aliases the same
+backing array. The in-place writes happen for every attribute, duplicate keys or not (without duplicates each element
+is rewritten with itself), so the race does not depend on `dup`; with no attribute at all nothing is written. -/
+def F36_applies (nAttrs _dupKeys : Nat) (concurrentAttributes : Bool) : Bool :=
+  concurrentAttributes && decide (nAttrs > 0)
+
+/-- oracle of the `attrrace` line: `some true` = known finding F36 reproduced, `some false` = ok, `none` = FAIL
+(a race where F36 does not apply, a race elsewhere, or a broken child run). `norace` is always ok: the race detector
+may miss the race in a given run. -/
+def attrRaceVerdict (nAttrs dupKeys : Nat) (conc : Bool) (obs : String) : Option Bool :=
+  if obs == "norace" then some false
+  else if obs == "race" && F36_applies nAttrs dupKeys conc then some true
+  else none
+
 end Otel.C10.Spec
